@@ -167,8 +167,14 @@ def check_learn(chk, rep, repo):
     li = bs.loop
     rep.fn("L3-strict", fn, f"if acc > {bs.best}", bs.relation in ("best<cand", "best<=cand"),
            f"relation is {bs.relation}", line=li.line)
+    SELF_T, FOREST = ("self",), ("attr", ("self",), "subgraph")
+    # what `fit` replaces on the object is its training graph alone: a deep copy of that graph, put back as a whole, keeps
+    # exactly the state a deep copy of the classifier keeps
+    wfit = model_walk(repo, "SupervisedOPF", "fit")
+    fit_fields = {e.target[2] for e in wfit.events if e.kind == "store" and e.target[0] == "attr" and e.target[1] == SELF_T}
+    whole = [SELF_T] + ([FOREST] if fit_fields <= {"subgraph"} else [])
     snap = {n: v for n, v in bs.companions.items() if v[1][0] == "alloc" and v[1][1] == "copy.deepcopy"
-            and v[1][2] == (("self",),)}
+            and len(v[1][2]) == 1 and v[1][2][0] in whole}
     rep.fn("L3-snapshot", fn, "the improving branch takes a deep copy of the classifier", len(snap) == 1,
            f"companions: { {n: show(v[1])[:40] for n, v in bs.companions.items()} }", line=li.line)
     s = bs.init
@@ -188,7 +194,7 @@ def check_learn(chk, rep, repo):
     # the forest's nodes hold views of the training rows: the snapshot must be taken while they still hold the rows the
     # criterion was measured on, i.e. after this iteration's fit / criterion and before its exchange
     snap_ev = [e for e in w.events if e.kind == "bind" and li.lid in e.loops and e.value[0] == "alloc"
-               and e.value[1] == "copy.deepcopy" and e.value[2] == (("self",),)]
+               and e.value[1] == "copy.deepcopy" and len(e.value[2]) == 1 and e.value[2][0] in whole]
     exch = [e for e in stores if li.lid in e.loops]
     for e in snap_ev:
         late = [x for x in exch if x.seq < e.seq]
@@ -199,10 +205,15 @@ def check_learn(chk, rep, repo):
                "the deep copy is taken before this iteration's fit: it holds the previous iteration's forest")
     if len(snap) == 1:
         sname = next(iter(snap))
+        of_forest = snap[sname][1][2][0] == FOREST
         inst = [e for e in w.events if e.kind == "call" and e.name == "update"
                 and e.target == ("attr", ("attr", ("self",), "__dict__"), "update")]
         ok = False
-        if len(inst) == 1 and len(inst[0].args) == 1:
+        if of_forest:
+            # the copied training graph is put back as the object's training graph
+            inst = [e for e in w.events if e.kind == "store" and e.target == FOREST and li.lid in e.loops]
+            ok = len(inst) == 1 and inst[0].value in (("phi", li.lid, sname), li.carried[sname][1]) and not inst[0].aug
+        elif len(inst) == 1 and len(inst[0].args) == 1:
             a = inst[0].args[0]
             if a[0] == "attr" and a[2] == "__dict__":
                 src = a[1]
